@@ -14,7 +14,8 @@ PROP = dict(
          'every admissible sequence of <= 2 (quick) / <= 4 (thorough) operations over three handles with a two-move menu. After EVERY '
          'operation EVERY live handle is observed (squares, reserves, ply, GameOver, both group slices, Hash, legal move set). '
          'non-trivial = sequence contains MovePreallocated or Clone; distinct = distinct sequences',
-    assumptions=['a buffer passed to MovePreallocated has the board size of the source and is not the source itself',
+    assumptions=['a buffer passed to MovePreallocated has the board size of the source and is not the source itself (ops_ok2; '
+                 'C09_value_semantics2_needs_size shows in the model that the statement fails for a buffer of another size)',
                  'a handle stops being live when it is passed as a buffer',
                  'stack heights <= 64 (documented representation limit)'],
     impl_timeout=3000, model_timeout=3000,
@@ -26,8 +27,15 @@ MANIFEST = dict(
          "other object's does; a live handle's BlackGroups lie in that array or in an array no WhiteGroups header points into), every live "
          "handle shows exactly the observables of the pure position value computed for it (value_semantics), and a clone shows the "
          "observables of its source immediately and after any further operations (clone_identical); the pinned Clone is refuted in the "
-         "model. The store model and the pure value model are run against the implementation after every operation of generated sequences "
-         "for every live handle, and an independent Go oracle holds a deep snapshot of every live handle, re-derives groups/outcome/hash "
+         "model. A refined store model (Alloc2.v) removes the exemption of Height/Stacks: all four slices of a Position are headers into "
+         "heap arrays, alloc/copyPosition/copy act on headers and cells, MovePreallocated reads the source through the source's headers and "
+         "writes the destination's cells in place; proved for it: owns2_invariant (every object's Height/Stacks headers are its own embedded "
+         "arrays, no array is owned by two objects, a live handle's BlackGroups lie in its own WhiteGroups array or an unowned one), "
+         "no_sharing, value_semantics2 (every live handle shows the pure value THROUGH its headers, nothing exempt) and that the in-place "
+         "move simulates the value-level move on any heap. Both store models and the pure value model are run against the implementation "
+         "after every operation of generated sequences for every live handle (L2 = the four headers of every held object named by the "
+         "object whose embedded array they point into, i.e. the alias structure, against the addresses of the Go slices), and an "
+         "independent Go oracle holds a deep snapshot of every live handle, re-derives groups/outcome/hash "
          "from the squares at creation, and checks on the slice headers' addresses that no storage written through one object is read "
          "through a live handle of another.",
     ref='5.9', technique='Coq proof (ownership invariant, value semantics by induction over operation lists) + store-model/implementation '
